@@ -131,7 +131,7 @@ fn repeated_h<const N: usize>(cmax: u32) {
     let t0 = sw.transactions;
     di.send_repeated_pixel(p, count).unwrap();
     assert!(sw.transactions - t0 <= budget(bytes, len, N), "[C06][C20] at most floor(bytes/usable)+1 transactions per burst");
-    assert!(sw.total as usize == 1 + bytes, "[C06][C05] exactly count pixels");
+    assert!(sw.total as usize == 1 + bytes, "[C06][C05][C19] exactly count pixels");
     assert!(sw.dc_low_bytes == 1 && sw.dc_high, "[C06] DC high for every pixel byte");
     if sw.probe_hit && sw.probe_idx >= 1 {
         let i = sw.probe_idx as usize - 1;
@@ -143,7 +143,7 @@ fn repeated_h<const N: usize>(cmax: u32) {
             }
             t += 1;
         }
-        assert!(sw.probe_byte == p[r] && sw.probe_dc, "[C06][C05] repeated pixel byte, no stale buffer content");
+        assert!(sw.probe_byte == p[r] && sw.probe_dc, "[C06][C05][C19] repeated pixel byte, no stale buffer content");
     }
     kani::cover!(count == cmax && len == LMAX - 1, "cover: max count, odd buffer");
     kani::cover!(count == 0, "cover: zero count");
@@ -201,7 +201,7 @@ h!(c06_pixels_n2, 10, pixels_h::<2, 6>());
 h!(c06_pixels_n3, 10, pixels_h::<3, 6>());
 //@ props=C06,C20,C05 inst="SpiInterface::send_repeated_pixel::<2>" bounds="buffer length 2..=8, count 0..=6" timeout=600 mem=4
 h!(c06_repeated_n2, 10, repeated_h::<2>(6));
-//@ props=C06,C20,C05 inst="SpiInterface::send_repeated_pixel::<3>" bounds="buffer length 3..=8, count 0..=6" timeout=600 mem=4
+//@ props=C06,C20,C05,C19 inst="SpiInterface::send_repeated_pixel::<3>" bounds="buffer length 3..=8, count 0..=6" timeout=600 mem=4
 h!(c06_repeated_n3, 10, repeated_h::<3>(6));
 //@ props=C12 inst="SpiInterface, N=2: send_command / send_pixels / send_repeated_pixel" bounds="symbolic index of the failing low-level operation; args <= 4, <= 4 pixels, buffer 2..=8" timeout=900 mem=8
 h!(c12_spi_fault_n2, 10, fault_h::<2>());
